@@ -242,6 +242,15 @@ Definition preview (s : sess) : doc :=
     document_for_search (main s) (mkss (field s) (ss_dir s) (ign s))
   else bdoc (main s).
 
+(* The preview as proposed in fixes/C16-preview-remembered-search-text.patch
+   (NOT the code at HEAD): with an empty field the remembered search text is
+   previewed, i.e. exactly the text accept_search applies. *)
+Definition preview_repaired (s : sess) : doc :=
+  let t := if len (field s) =? 0 then ss_text s else field s in
+  if searching s && negb (len t =? 0) then
+    document_for_search (main s) (mkss t (ss_dir s) (ign s))
+  else bdoc (main s).
+
 (* KeyProcessor._fix_vi_cursor_position on the main buffer *)
 Definition is_cursor_at_the_end_of_line (d : doc) : bool :=
   match index (dtext d) (dcur d) with
@@ -357,6 +366,30 @@ Definition key_step (s : sess) (k : key) : option sess :=
       end in
   match r with Some s' => Some (post s') | None => None end.
 
+(* Two BufferControls that share ONE search field (search_buffer_control given
+   to both; hence one SearchState, `BufferControl.search_state` reads it off the
+   search control).  [cs] is the session of the focused control (the one a
+   search started now would target); [other] the other control's buffer.
+   Moving the focus (only possible while not searching: the search field has
+   the focus during a search) swaps the two; the search state is shared. *)
+Record sess2 := mksess2 { cs : sess; other : sbuf; focus_a : bool }.
+
+Inductive key2 := K2 (k : key) | KSwitch.
+
+Definition key_step2 (s : sess2) (k : key2) : option sess2 :=
+  match k with
+  | K2 k' => match key_step (cs s) k' with
+             | Some c' => Some (mksess2 c' (other s) (focus_a s))
+             | None => None
+             end
+  | KSwitch =>
+      if searching (cs s) then None
+      else Some (mksess2 (with_main (cs s) (other s)) (main (cs s)) (negb (focus_a s)))
+  end.
+
+(* what the control that is NOT searched displays: its own document *)
+Definition preview_other (s : sess2) : doc := bdoc (other s).
+
 End Search.
 
 (* ---------------------------------------------------------------------- *)
@@ -443,8 +476,39 @@ Fixpoint run_keys (s : sess) (ks : list key) : list sx :=
       end
   end.
 
+Definition dec_key2 (s : sx) : option key2 :=
+  match s with
+  | L [A 21] => Some KSwitch
+  | _ => match dec_key s with Some k => Some (K2 k) | None => None end
+  end.
+
+Definition enc_sess2 (s : sess2) : sx :=
+  let p := preview_other s in
+  L [enc_sess (cs s); sx_bool (focus_a s); A (wi (other s)); A (cur (other s));
+     sx_list sx_str (wl (other s)); sx_str (dtext p); A (dcur p)].
+
+Fixpoint run_keys2 (s : sess2) (ks : list key2) : list sx :=
+  match ks with
+  | [] => []
+  | k :: r =>
+      match key_step2 ceq_tab s k with
+      | Some s' => enc_sess2 s' :: run_keys2 s' r
+      | None => [A (-2)]
+      end
+  end.
+
 Definition run_C16 (c : sx) : sx :=
   match c with
+  | L [A 4; L wa; A ia; A ca; L wb; A ib; A cb; A ic; L ks] =>
+      match map_opt as_str wa, map_opt as_str wb, as_bool (A ic), map_opt dec_key2 ks with
+      | Some wa', Some wb', Some ic', Some ks' =>
+          let a := mksbuf wa' ia ca in
+          let b := mksbuf wb' ib cb in
+          if buf_ok a && buf_ok b
+          then L (run_keys2 (mksess2 (mksess a [] 0 [] 0 ic' false false) b true) ks')
+          else bad_case
+      | _, _, _, _ => bad_case
+      end
   | L [A 1; L ws; A w; A cu; nd; A ic] =>
       match map_opt as_str ws, as_str nd, as_bool (A ic) with
       | Some ws', Some nd', Some ic' =>
